@@ -136,6 +136,82 @@ def oracle_c06(sc, g):
     return None
 
 
+def oracle_c07_handler(sc, g):
+    """implementation only: with the identity handler installed (and nothing that ends option parsing early), every stand-alone
+    unknown token --nosuch / --nosuch=1 / -Z / -Z=3 of a successful parse caused exactly one handler call, with its name, its inline
+    argument and exactly the tokens after it; under IgnoreUnknown (no handler call) each of them is among the returned arguments"""
+    cfg = sc["cfg"]
+    if cfg["opts"]["passdd"] or cfg["opts"]["passafter"]:
+        return None
+    probes = {b"--nosuch": (b"nosuch", None), b"--nosuch=1": (b"nosuch", b"1"), b"-Z": (b"Z", None), b"-Z=3": (b"Z", b"3")}
+    for o, r in zip(sc["ops"], g["ops"]):
+        if o["op"] != "parse" or r.get("panic") or r["err"] != "nil":
+            continue
+        args = o["args"]
+        idx = [i for i, t in enumerate(args) if t in probes]
+        if not idx:
+            continue
+        if cfg["opts"]["ignore"]:
+            def has_pos(nd):
+                return bool(nd["pos"]) or any(has_pos(x) for x in nd["subs"])
+            if "meta" not in sc or has_pos(sc["meta"]):
+                continue            # passed-through tokens go to unfilled positional arguments first
+            ret = scen.decode_list(r["ret"]) or []
+            for i in idx:
+                if ret.count(args[i]) < sum(1 for j in idx if args[j] == args[i]):
+                    return "the unknown option %r was not passed through to the remaining arguments under IgnoreUnknown" % (args[i],)
+            continue
+        if cfg["handler"] != "identity":
+            continue
+        calls = []
+        for ent in [x for x in r.get("unknown", "").split(";") if x]:
+            nm, ar, rest = ent.split(":", 2)
+            calls.append((scen.unhex(nm), None if ar == "nil" else scen.unhex(ar), scen.decode_list(rest) or []))
+        for i in idx:
+            nm, ar = probes[args[i]]
+            hits = [c for c in calls if c[0] == nm and c[1] == ar and c[2] == list(args[i + 1:])]
+            if len(hits) != 1:
+                return "the handler was called %d times for the unknown option %r at position %d (expected once, with the %d tokens after it)" % (
+                    len(hits), args[i], i, len(args) - i - 1)
+    return None
+
+
+def make_c01(profile):
+    def mk(rng):
+        sc = declgen.Gen(rng, profile).gen_scenario()
+        sc["ops"].insert(0, {"op": "observe"})      # observation of every field before anything is parsed
+        return sc
+    return mk
+
+
+def oracle_c01_untouched(sc, g):
+    """implementation only: fields that carry no option tag hold after every operation what they held before the first one"""
+    if not g["ops"] or sc["ops"][0]["op"] != "observe":
+        return None
+    plain = set()
+    def walk(fs):
+        for f in fs:
+            if "struct" in f: walk(f["struct"]["fields"])
+            elif f["name"].startswith(b"P"): plain.add(f["fid"])      # declgen.gen_plain_field: no long/short/ini-name tag
+    for fl in scen.all_field_lists(sc): walk(fl)
+    def vals(r):
+        d = {}
+        for part in r.get("vals", "").split(";"):
+            if part:
+                k, _, v = part.partition(":")
+                d[int(k)] = v
+        return d
+    before = vals(g["ops"][0])
+    for o, r in zip(sc["ops"][1:], g["ops"][1:]):
+        if r.get("panic"):
+            continue
+        after = vals(r)
+        for fid in plain:
+            if fid in before and fid in after and before[fid] != after[fid]:
+                return "the untagged field with id %d was %s before and is %s after %s" % (fid, before[fid], after[fid], o["op"])
+    return None
+
+
 def combine(*fs):
     def f(sc, g):
         for x in fs:
@@ -151,7 +227,8 @@ FULL = runner.ALL_KEYS
 CONFIG = {
     "C01": dict(profile=dict(p_mid_attach=0.08, p_addoption=0.08, p_repeat_opt=0.5, p_required=0.03, p_bad_value=0.03, p_ev_unknown=0.02, p_ev_garbage=0.01, p_group=0.45, p_namespace=0.7,
                              p_commands=0.5, n_events=(1, 9), p_untagged=0.2, p_init=0.3, p_mutate_argv=0.03),
-                keys=["panic", "err", "vals", "calls", "attached", "set"], transform=t_err_type_only, theorems="C01_*"),
+                keys=["panic", "err", "vals", "calls", "attached", "set"], transform=t_err_type_only, theorems="C01_*",
+                oracle=oracle_c01_untouched, make="c01"),
     "C02": dict(profile=dict(p_required=0.02, p_mb_short=0.25, p_quoted=0.3, p_bad_value=0.05, p_commands=0.2, p_ev_unknown=0.02, p_ev_garbage=0.01),
                 keys=FULL, transform=common.hide_help, theorems="C02_*"),
     "C03": dict(profile=dict(p_required=0.02, p_passdd=0.7, p_passafter=0.4, p_ignore=0.4, p_ev_plain=0.3, p_ev_term=0.1, p_ev_unknown=0.12,
@@ -169,7 +246,7 @@ CONFIG = {
                 keys=["panic", "err", "exec", "set"], transform=common.hide_help, oracle=combine(oracle_c09, oracle_c06), theorems="C06_*"),
     "C07": dict(profile=dict(p_ev_unknown=0.3, p_wrong_scope=0.3, p_ignore=0.35, p_handler=0.45, p_required=0.02, p_commands=0.6, p_bad_value=0.02,
                              p_namespace=0.8, p_group=0.4, p_ev_cmd=0.2, max_depth=3, p_subopt=0.4, p_sibling_cmd=0.35),
-                keys=["panic", "err", "unknown", "ret", "vals"], transform=common.hide_help, theorems="C07_*"),
+                keys=["panic", "err", "unknown", "ret", "vals"], transform=common.hide_help, theorems="C07_*", oracle=oracle_c07_handler),
     "C08": dict(profile=dict(p_mid_attach=0.2, p_commands=0.95, max_depth=3, p_alias=0.6, p_subopt=0.4, p_ev_cmd=0.35, p_required=0.02, p_bad_value=0.02,
                              p_ev_unknown=0.03, n_events=(1, 9), p_positional=0.15, p_sibling_cmd=0.25),
                 keys=["panic", "err", "active", "vals", "ret"], transform=common.hide_help, theorems="C08_*", n_quick=250),
@@ -218,7 +295,8 @@ def run_property(rep, rng, pid, tier, replay=None, extra_streams=None):
             if not f(rep, rng, tier):
                 return
     common.scenario_check(rep, rng, pid, n, profile=cfg["profile"], keys=cfg["keys"], transform=cfg["transform"],
-                          oracle=cfg.get("oracle"), theorem_names=cfg["theorems"], stream="parse", n_parses=cfg.get("n_parses", 1))
+                          oracle=cfg.get("oracle"), theorem_names=cfg["theorems"], stream="parse", n_parses=cfg.get("n_parses", 1),
+                          make=make_c01(cfg["profile"]) if cfg.get("make") == "c01" else None)
 
 
 def rule_text(pid):
